@@ -368,6 +368,16 @@ def foreign_side(ctx, blobs):
                     pass
                 e['result'] = sigs.verify_outcome(pub, vsubj, s)
             ev.append(e)
+            if s is not None and e['result'] == 'truthy' and (v.get('form') or extra):
+                # the same valid signature after its object has been copied (keys, identities and messages copy their signatures)
+                import copy as _copy
+                e2 = dict(e, label=e['label'] + ' (copied object)')
+                try:
+                    e2['result'] = sigs.verify_outcome(pub, vsubj, _copy.copy(s))
+                except Exception:
+                    e2['result'] = 'raised'
+                e2.pop('hashdata', None)
+                ev.append(e2)
         for h in hashes:
             if kind.startswith('dsa') and h in ('md5',):
                 continue
